@@ -218,7 +218,8 @@ Example C10_cbor_dupkeys_nonvacuous :
    twf t /\ lib_supports_dup D t /\ ~ lib_supports_t D t /\
    map_view (go_of_t D (data_of t)) = IMap [(IUint 1, IMap [(IStr [97], IBool true)]); (IStr [97], IUint 2)]).
 Proof.
-  cbv zeta. split; [|split; [|split; [|split; [|split; [|split]]]]]; try (vm_compute; reflexivity).
+  cbv zeta. split; [vm_compute; reflexivity|]. split; [vm_compute; reflexivity|]. split; [vm_compute; reflexivity|].
+  split; [vm_compute; reflexivity|]. split; [vm_compute; reflexivity|]. split; [vm_compute; reflexivity|].
   split; [|split; [|split]].
   - cbn. unfold bytes_ok. repeat (apply conj || apply Forall_cons || apply Forall_nil || lia || exact I || reflexivity).
   - cbn. unfold keys_hash. repeat (apply conj || apply Forall_cons || apply Forall_nil || lia || exact I || reflexivity || discriminate).
